@@ -27,7 +27,7 @@ STATE_MEASURE = 'distinct (exported path set, query kind, queried path) at proce
 PROBES = ['sibling-prefix-both-exported', 'introspect-intermediate-path', 'introspect-fails',
           'gmo-with-descendants', 'gmo-root', 'query-in-flight-across-export',
           'query-in-flight-across-unexport', 'call-to-unexported', 'unexport-then-reexport', 'same-instance-reexported', 'property-assigned-after-export',
-          'export-over-exported-path', 'export-call-raised', 'unexport-of-unexported-path', 'failed-export-fate-observed', 'failed-export-over-exported-path',
+          'export-over-exported-path', 'export-call-raised', 'unexport-of-unexported-path', 'failed-export-fate-observed', 'failed-export-over-exported-path', 'exported-object-is-falsy',
           'gmo-sibling-prefix-case']
 COMPONENTS = {
     'real': ['txdbus.objects.DBusObjectHandler (exportObject, unexportObject, getManagedObjects, '
@@ -88,7 +88,12 @@ def scenario(ctx):
             cs.methods[(cs.ifaces[0].name, 'Probe')] = objgen.MSpec(cs.ifaces[0].name, 'Probe',
                                                                     '', 'i', 'deco', False)
             txi = objgen.build_tx_ifaces(cs)
-            classes.append((cs, objgen.build_class(cs, hook, txi)))
+            extra_attrs = None
+            if ds.flag(0.25):
+                # the exported object is also a Python container, and empty: falsy, yet exported
+                extra_attrs = {'__len__': lambda self: 0}
+                sim.probe('exported-object-is-falsy')
+            classes.append((cs, objgen.build_class(cs, hook, txi, extra_attrs)))
     rig.call(build)
 
     retired = {}    # path -> record of an instance that was unexported (may be exported again)
